@@ -210,6 +210,107 @@ bus_dispatch_matches (BusTransaction *transaction,
     return TRUE;
 }
 
+#ifdef FREEDESKTOP_DBUS_VERIF
+/* Verification hooks (off unless built with -DFREEDESKTOP_DBUS_VERIF).
+ *
+ * H1: at the end of every dispatch - a quiescent point of the single-threaded bus - check the
+ *     structural invariants of the registry and the connection table, and, if DBUS_VERIF_TRACE
+ *     names a file, append a dump of that state to it.
+ * H2: if DBUS_VERIF_CTL names a file holding "<k> <unique-name|-> <serial>", the dispatch of
+ *     exactly that message runs with the k-th dbus_malloc failing; the outcome is appended to
+ *     "<file>.result" as "<fired> <allocations-seen>".
+ */
+#include <stdio.h>
+#include <stdlib.h>
+void bus_verif_registry_state (BusRegistry *registry, FILE *out);
+void bus_verif_connections_state (BusConnections *connections, FILE *out);
+
+static int verif_armed = 0;
+static int verif_k = 0;
+static unsigned long verif_seq = 0;
+
+static void
+bus_verif_dispatch_begin (DBusConnection *connection,
+                          DBusMessage    *message)
+{
+  const char *ctl = _dbus_getenv ("DBUS_VERIF_CTL");
+  FILE *f;
+  char who[128];
+  unsigned serial = 0;
+  int k = 0;
+  const char *name;
+
+  if (ctl == NULL)
+    return;
+  f = fopen (ctl, "r");
+  if (f == NULL)
+    return;
+  who[0] = 0;
+  if (fscanf (f, "%d %127s %u", &k, who, &serial) == 3)
+    {
+      name = bus_connection_is_active (connection) ? bus_connection_get_name (connection) : NULL;
+      if (serial == dbus_message_get_serial (message) &&
+          strcmp (who, name ? name : "-") == 0)
+        {
+          verif_armed = 1;
+          verif_k = k;
+        }
+    }
+  fclose (f);
+  if (verif_armed)
+    {
+      remove (ctl);
+      _dbus_set_fail_alloc_counter (k);
+    }
+}
+
+static void
+bus_verif_dispatch_end (BusContext *context)
+{
+  const char *trace;
+
+  if (verif_armed)
+    {
+      int left = _dbus_get_fail_alloc_counter ();
+      const char *ctl = _dbus_getenv ("DBUS_VERIF_CTL");
+      _dbus_set_fail_alloc_counter (_DBUS_INT_MAX);
+      verif_armed = 0;
+      if (ctl != NULL)
+        {
+          char path[4096];
+          FILE *f;
+          snprintf (path, sizeof path, "%s.result", ctl);
+          f = fopen (path, "a");
+          if (f != NULL)
+            {
+              /* the counter only counts down from k, unless the failure fired and reset it */
+              int fired = (left > verif_k);
+              fprintf (f, "%d %d\n", fired, fired ? -1 : verif_k - left);
+              fclose (f);
+            }
+        }
+    }
+
+  verif_seq++;
+  trace = _dbus_getenv ("DBUS_VERIF_TRACE");
+  if (trace != NULL)
+    {
+      FILE *f = fopen (trace, "a");
+      if (f != NULL)
+        {
+          fprintf (f, "S %lu\n", verif_seq);
+          bus_verif_registry_state (bus_context_get_registry (context), f);
+          bus_verif_connections_state (bus_context_get_connections (context), f);
+          fprintf (f, "E %lu\n", verif_seq);
+          fclose (f);
+          return;
+        }
+    }
+  bus_verif_registry_state (bus_context_get_registry (context), NULL);
+  bus_verif_connections_state (bus_context_get_connections (context), NULL);
+}
+#endif /* FREEDESKTOP_DBUS_VERIF */
+
 static DBusHandlerResult
 bus_dispatch (DBusConnection *connection,
               DBusMessage    *message)
@@ -229,6 +330,10 @@ bus_dispatch (DBusConnection *connection,
 
   context = bus_connection_get_context (connection);
   _dbus_assert (context != NULL);
+
+#ifdef FREEDESKTOP_DBUS_VERIF
+  bus_verif_dispatch_begin (connection, message);
+#endif
 
   /* If we can't even allocate an OOM error, we just go to sleep
    * until we can.
@@ -545,6 +650,10 @@ bus_dispatch (DBusConnection *connection,
     {
       bus_transaction_execute_and_free (transaction);
     }
+
+#ifdef FREEDESKTOP_DBUS_VERIF
+  bus_verif_dispatch_end (context);
+#endif
 
   dbus_connection_unref (connection);
 
